@@ -27,13 +27,14 @@ Definition to_pixels (u : unit) : option Q :=
 Record env := { own_fs : Q; root_fs : Q; ex_ratio : Q; ch_ratio : Q; is_root : bool }.
 
 Definition Qzero (q : Q) : bool := Qeq_bool q 0.
+Definition is_pct (u : unit) : bool := match u with Pct => true | _ => false end.
 
 (* length(style, name, value, font_size=None, pixels_only=...); for_font_size: name == 'font_size' *)
 Definition length (e : env) (for_font_size : bool) (font_size : option Q) (value : lval) : lres :=
   match value with
   | LKeyword => LSame
   | LDim v u =>
-      if Qzero v then LPx 0
+      if Qzero v && negb (is_pct u) then LPx 0      (* a zero length is 0px; 0% stays a percentage (repair fbc7bb3) *)
       else match u with
            | Px => LPx v
            | Pct => LSame
